@@ -223,6 +223,75 @@ class Permit(ModelObj):
             self.chan.release_one()
 
 
+class PermitIter(ModelObj):
+    """the iterator returned by reserve_many: n reserved slots"""
+    type_name = "PermitIterator"
+
+    def __init__(self, chan, n):
+        self.chan, self.n = chan, n
+
+    def iter_next(self, it):
+        if self.n == 0:
+            return mk_none()
+        self.n -= 1
+        return mk_some(Permit(self.chan))
+
+    def drop(self, it):
+        while self.n > 0:
+            self.n -= 1
+            self.chan.w.acc(self.chan.key(), True)
+            self.chan.release_one()
+
+
+class ReserveManyFut(ModelObj):
+    """reserve_many(n): takes what is free, then queues for the rest as ONE waiter at its FIFO
+    position (n consecutive tickets): later senders wait behind it although slots are free"""
+    type_name = "ReserveManyFut"
+
+    def __init__(self, chan, n):
+        self.chan, self.n, self.have, self.tickets, self.started = chan, n, 0, [], False
+
+    def poll(self, it, cx):
+        c = self.chan
+        k = c.key()
+        c.w.acc(k, False)
+        if c.closed:
+            self.drop(it)
+            return mk_ready(mk_err(Agg("struct", "SendError", [UNIT])))
+        if not self.started:
+            self.started = True
+            c.w.acc(k, True)
+            while self.have < self.n and c.free > 0 and not c.waitq:
+                c.free -= 1
+                self.have += 1
+            for _ in range(self.n - self.have):
+                self.tickets.append(c.next_ticket)
+                c.waitq.append(c.next_ticket)
+                c.next_ticket += 1
+            c.w.touch()
+        for t in list(self.tickets):
+            if t in c.granted:
+                c.w.acc(k, True)
+                c.granted.remove(t)
+                self.tickets.remove(t)
+                self.have += 1
+        if self.have == self.n:
+            n, self.have = self.have, 0
+            return mk_ready(mk_ok(PermitIter(c, n)))
+        return mk_pending()
+
+    def drop(self, it):
+        c = self.chan
+        for t in self.tickets:
+            c.w.acc(c.key(), True)
+            c.withdraw(t)
+        self.tickets = []
+        while self.have > 0:
+            self.have -= 1
+            c.w.acc(c.key(), True)
+            c.release_one()
+
+
 class ReserveFut(ModelObj):
     type_name = "ReserveFut"
 
